@@ -154,7 +154,7 @@ def sum_last(a, n):
     return Val(c, a.order)
 
 
-def stack(vals, axis0=True):
+def stack(vals):
     'stack equal-shaped values along a new FIRST array axis'
     return Val(numpy.stack([v.c for v in vals], axis=1), min(v.order for v in vals))
 
